@@ -81,6 +81,15 @@ def handle : List String → String
     match parseOutcome outcome with
     | some o => showRes (deleteIfExists o)
     | none => "bad-request"
+  | ["rpoe", body, outcome] =>
+    let body : Option (Option Exc) := if body = "none" then some none else (parseExc body).map some
+    match body, parseOutcome outcome with
+    | some b, some o =>
+      match removePathOnError b o with
+      | .ok () => "returned"
+      | .error (.body e) => "raised " ++ showExc e ++ " [body]"
+      | .error (.fromRemove e) => "raised " ++ showExc e
+    | _, _ => "bad-request"
   | ["fs_ensure", st] =>
     match parseState st with
     | some st =>
